@@ -105,4 +105,9 @@ theorem sd_inv {K V : Type} [Field K] [LinearOrder K] [AddCommGroup V] [Module K
     · simp only [hc, if_false]
       cases P.ls s.x (-(P.grad s.x)) (-(P.nsq (P.grad s.x))) <;> simp_all
 
+theorem dr_step_log {K V W : Type} [Field K] [AddCommGroup V] [Module K V] [AddCommGroup W]
+    [Module K W] (P : DrP K V W) (z : V) (s : DrS V W) :
+    (P.step z s).log = s.log ++ [(P.step z s).p1] := by
+  simp only [DrP.step]
+
 end OdlModel.Solvers
